@@ -20,8 +20,12 @@ const UNREACHABLE: &[&str] = &[
     "<comp><block slot=\"{{F}}\">a</block></comp>", "<view wx:if=\"{{ [ , F] }}\">a</view>", "<template is=\"{{F}}\"/>",
     "<template is=\"t\" data=\"{{ {a: F} }}\"/>", "<include src=\"q\"/><block wx:if=\"{{ a ? F : 1 }}\">x</block>", "<slot name=\"{{F}}\"/>",
     "<block wx:for=\"{{z}}\" wx:key=\"k\"><view>{{ o[F] }}</view></block>",
+    // still inside a dynamic subtree after a NESTED dynamic node has been closed (later sibling, later branch)
+    "<block wx:for=\"{{z}}\"><div wx:if=\"{{c}}\">x</div><div>{{F}}</div></block>", "<block wx:if=\"{{c}}\"><slot name=\"{{n}}\"/></block><block wx:else><div class=\"{{F}}\"/></block>",
+    "<block wx:if=\"{{c}}\"><block wx:for=\"{{z}}\">y</block><view a=\"{{F}}\"/></block>", "<block wx:for=\"{{z}}\"><template is=\"t\"/><view>{{F}}</view></block>",
+    "<view wx:if=\"{{c}}\"><block wx:if=\"{{d}}\">1</block><block wx:elif=\"{{e}}\">2</block>{{F}}</view>", "<block wx:if=\"{{c}}\">1</block><block wx:elif=\"{{d}}\"><block wx:for=\"{{z}}\">y</block></block><block wx:else>{{F}}</block>",
 ];
-const BOUND: &str = "11 mappable fragments x 12 unreachable-position fragments x {same field, different fields} x both orders; 11 mappable fragments x 6 placements of an <include> (no field may be advertised)";
+const BOUND: &str = "11 mappable fragments x 18 unreachable-position fragments (6 of them: behind a closed nested dynamic node inside a dynamic subtree) x {same field, different fields} x both orders; 11 mappable fragments x 6 placements of an <include> (no field may be advertised)";
 
 static MAPS_SEEN: std::sync::atomic::AtomicU64 = std::sync::atomic::AtomicU64::new(0);
 fn advertised(js: &str) -> Vec<(String, usize)> {
